@@ -574,6 +574,96 @@ theorem lexAt_string {L : Bytes} {q : Nat} (s rest : Bytes) (hs : ∀ c ∈ s, c
   simp [strText]
   omega
 
+/-! ### the same with either quote character -/
+
+theorem strLoop_plainQ {L : Bytes} {p : Nat} {c : UInt8} {r : Bytes} (qc : UInt8) (h : L.drop p = c :: r) (acc : Bytes)
+    (h1 : c ≠ qc) (h2 : c ≠ 0) (h3 : c ≠ 92) :
+    strLoop (ofList L) qc p acc = strLoop (ofList L) qc (p + 1) (c :: acc) := by
+  rw [strLoop]
+  simp only [lt_size_of_drop h, ↓reduceDIte, getElem_of_drop h]
+  simp [h1, h2, h3]
+
+theorem strLoop_escapeQ {L : Bytes} {p : Nat} {e : UInt8} {r : Bytes} (qc : UInt8) (hq : qc ≠ 92) (h : L.drop p = 92 :: e :: r) (acc : Bytes) :
+    strLoop (ofList L) qc p acc = strLoop (ofList L) qc (p + 2)
+      (if e == 110 then 10 :: acc else if e == 116 then 9 :: acc else if e == 114 then 13 :: acc
+       else if e == 92 then 92 :: acc else if e == 34 then 34 :: acc else if e == 0 then acc else e :: 92 :: acc) := by
+  have h1 : L.drop (p + 1) = e :: r := drop_drop_of [92] (e :: r) (by simpa using h) 1 rfl
+  have hlt1 : p + 1 < (ofList L).size := lt_size_of_drop h1
+  have hq' : ¬ (92 : UInt8) = qc := fun e => hq e.symm
+  rw [strLoop]
+  simp only [lt_size_of_drop h, ↓reduceDIte, getElem_of_drop h, chAt_of_drop1 h, hlt1]
+  simp [hq']
+
+theorem strLoop_closeQ {L : Bytes} {p : Nat} {r : Bytes} (qc : UInt8) (h : L.drop p = qc :: r) (acc : Bytes) :
+    strLoop (ofList L) qc p acc = (acc.reverse, p) := by
+  rw [strLoop]
+  simp only [lt_size_of_drop h, ↓reduceDIte, getElem_of_drop h]
+  simp
+
+theorem strLoop_escQ {L : Bytes} (qc : UInt8) (hqc : qc = 34 ∨ qc = 39) (s : Bytes) (hs : ∀ c ∈ s, c ≠ 0)
+    (hsq : qc = 39 → ∀ c ∈ s, c ≠ 39) (p : Nat) (rest acc : Bytes) (h : L.drop p = esc s ++ qc :: rest) :
+    strLoop (ofList L) qc p acc = (acc.reverse ++ s, p + (esc s).length) := by
+  have hq92 : qc ≠ 92 := by rcases hqc with e | e <;> rw [e] <;> decide
+  induction s generalizing p acc with
+  | nil =>
+    simp only [esc, List.flatMap_nil, List.nil_append] at h
+    rw [strLoop_closeQ qc h]; simp [esc]
+  | cons c s' ih =>
+    have hs' : ∀ c ∈ s', c ≠ 0 := fun x hx => hs x (by simp [hx])
+    have hsq' : qc = 39 → ∀ c ∈ s', c ≠ 39 := fun e x hx => hsq e x (by simp [hx])
+    have hc0 : c ≠ 0 := hs c (by simp)
+    have hesc : esc (c :: s') = escByte c ++ esc s' := by simp [esc]
+    rw [hesc, List.append_assoc] at h
+    have two : ∀ (e v : UInt8), escByte c = [92, e] →
+        (if e == 110 then 10 :: acc else if e == 116 then 9 :: acc else if e == 114 then 13 :: acc
+         else if e == 92 then 92 :: acc else if e == 34 then 34 :: acc else if e == 0 then acc else e :: 92 :: acc) = v :: acc →
+        v = c → strLoop (ofList L) qc p acc = (acc.reverse ++ c :: s', p + (esc (c :: s')).length) := by
+      intro e v he hv hvc
+      rw [he] at h
+      rw [strLoop_escapeQ qc hq92 (by rw [h]; rfl), hv]
+      have h2 : L.drop (p + 2) = esc s' ++ qc :: rest := drop_drop_of [92, e] _ (by rw [h]) 2 rfl
+      rw [ih hs' hsq' (p + 2) (v :: acc) h2, hesc, he, hvc]
+      simp only [List.reverse_cons, List.append_assoc, List.singleton_append, List.length_append, List.length_cons, List.length_nil]
+      congr 1; omega
+    by_cases c10 : c = 10
+    · exact two 110 10 (by simp [escByte, c10]) (by simp) c10.symm
+    by_cases c9 : c = 9
+    · exact two 116 9 (by simp [escByte, c9]) (by simp) c9.symm
+    by_cases c13 : c = 13
+    · exact two 114 13 (by simp [escByte, c13]) (by simp) c13.symm
+    by_cases c92 : c = 92
+    · exact two 92 92 (by simp [escByte, c92]) (by simp) c92.symm
+    by_cases c34 : c = 34
+    · exact two 34 34 (by simp [escByte, c34]) (by simp) c34.symm
+    · have he : escByte c = [c] := by simp [escByte, c10, c9, c13, c92, c34]
+      rw [he] at h
+      have hcq : c ≠ qc := by
+        rcases hqc with e | e
+        · rw [e]; exact c34
+        · rw [e]; exact hsq e c (by simp)
+      rw [strLoop_plainQ qc (by rw [h]; rfl) acc hcq hc0 c92]
+      have h1 : L.drop (p + 1) = esc s' ++ qc :: rest := drop_drop_of [c] _ (by rw [h]) 1 rfl
+      rw [ih hs' hsq' (p + 1) (c :: acc) h1, hesc, he]
+      simp only [List.reverse_cons, List.append_assoc, List.singleton_append, List.length_append, List.length_cons, List.length_nil]
+      congr 1; omega
+
+/-- a string literal between single quotes (for strings without `'`) -/
+def strTextSQ (s : Bytes) : Bytes := 39 :: (esc s ++ [39])
+
+theorem strTextSQ_length (s : Bytes) : (strTextSQ s).length = (strText s).length := by simp [strTextSQ, strText]
+
+theorem lexAt_stringSQ {L : Bytes} {q : Nat} (s rest : Bytes) (hs : ∀ c ∈ s, c ≠ 0) (hsq : ∀ c ∈ s, c ≠ 39)
+    (h : L.drop q = strTextSQ s ++ rest) :
+    lexAt (ofList L) q = .ok ({ type := .string, lit := s }, q + (strTextSQ s).length) := by
+  have h' : L.drop q = 39 :: (esc s ++ 39 :: rest) := by rw [h]; simp [strTextSQ]
+  have hch : chAt (ofList L) q = 39 := chAt_of_drop h'
+  have h1 : L.drop (q + 1) = esc s ++ 39 :: rest := drop_drop_of [39] _ (by rw [h']; rfl) 1 rfl
+  have hl := strLoop_escQ 39 (Or.inr rfl) s hs (fun _ => hsq) (q + 1) rest [] h1
+  have hq : chAt (ofList L) (q + 1 + (esc s).length) = 39 := chAt_of_drop (drop_add_of (esc s) _ h1)
+  simp only [lexAt, hch, readString, hl, hq]
+  simp [strTextSQ]
+  omega
+
 /-! ## every token of the language from its spelling -/
 
 def tokText (t : Token) : Bytes := if t.type = .string then strText t.lit else t.lit
@@ -697,33 +787,75 @@ theorem lexable_head (t : Token) (hl : Lexable t) : ∃ c r, tokText t = c :: r 
   case lessEqual => subst hl; exact ⟨60, [61], rfl, by decide⟩
   all_goals exact word hl.1 (by simp [tokText])
 
+/-! ## either quote character for string literals -/
+
+/-- the spelling of a token when the strings selected by `sq` are written between single quotes -/
+def tokTextQ (sq : Token → Bool) (t : Token) : Bytes :=
+  if t.type = .string ∧ sq t = true then strTextSQ t.lit else tokText t
+
+/-- lexable under that choice: a string written between single quotes contains no `'` -/
+def LexableQ (sq : Token → Bool) (t : Token) : Prop :=
+  Lexable t ∧ (t.type = .string → sq t = true → ∀ c ∈ t.lit, c ≠ 39)
+
+theorem tokTextQ_length (sq : Token → Bool) (t : Token) : (tokTextQ sq t).length = (tokText t).length := by
+  unfold tokTextQ
+  split
+  · rename_i h; simp [tokText, h.1, strTextSQ_length]
+  · rfl
+
+theorem tokTextQ_false (t : Token) : tokTextQ (fun _ => false) t = tokText t := by simp [tokTextQ]
+
+theorem lexableQ_false (t : Token) (h : Lexable t) : LexableQ (fun _ => false) t := ⟨h, fun _ h => by cases h⟩
+
+theorem lex_tokenQ (sq : Token → Bool) {L : Bytes} {q : Nat} (t : Token) (rest : Bytes) (hl : LexableQ sq t)
+    (h : L.drop q = tokTextQ sq t ++ rest) (hd : FollowOK t (nextCh rest)) :
+    lexAt (ofList L) q = .ok (t, q + (tokTextQ sq t).length) := by
+  by_cases hs : t.type = .string ∧ sq t = true
+  · obtain ⟨ty, lit⟩ := t
+    have hty : ty = .string := hs.1
+    subst hty
+    have ht : tokTextQ sq ⟨.string, lit⟩ = strTextSQ lit := by simp [tokTextQ, hs.2]
+    rw [ht] at h ⊢
+    have h0 : ∀ c ∈ lit, c ≠ 0 := by have := hl.1; simpa [Lexable] using this
+    exact lexAt_stringSQ lit rest h0 (hl.2 rfl hs.2) h
+  · have ht : tokTextQ sq t = tokText t := by simp only [tokTextQ]; rw [if_neg hs]
+    rw [ht] at h ⊢
+    exact lex_token t rest hl.1 h hd
+
+theorem lexable_headQ (sq : Token → Bool) (t : Token) (hl : LexableQ sq t) :
+    ∃ c r, tokTextQ sq t = c :: r ∧ isWs c = false := by
+  by_cases hs : t.type = .string ∧ sq t = true
+  · exact ⟨39, esc t.lit ++ [39], by simp only [tokTextQ]; rw [if_pos hs]; rfl, by decide⟩
+  · have ht : tokTextQ sq t = tokText t := by simp only [tokTextQ]; rw [if_neg hs]
+    rw [ht]; exact lexable_head t hl.1
+
 /-! ## a whole text -/
 
 /-- a spelled-out token sequence: every token preceded by white space -/
-def spell : List (Bytes × Token) → Bytes
+def spell (sq : Token → Bool) : List (Bytes × Token) → Bytes
   | [] => []
-  | (ws, t) :: r => ws ++ tokText t ++ spell r
+  | (ws, t) :: r => ws ++ tokTextQ sq t ++ spell sq r
 
-theorem spell_append (a b : List (Bytes × Token)) : spell (a ++ b) = spell a ++ spell b := by
+theorem spell_append (sq : Token → Bool) (a b : List (Bytes × Token)) : spell sq (a ++ b) = spell sq a ++ spell sq b := by
   induction a with
   | nil => rfl
   | cons x xs ih => obtain ⟨ws, t⟩ := x; simp [spell, ih]
 
 /-- white space is white space, tokens are lexable, and two neighbouring tokens are either separated by white
     space or the first byte of the second may directly follow the first (`user.name`, `tags[0]`, `a==1`) -/
-def SpellOK (items : List (Bytes × Token)) : Prop :=
-  (∀ pre ws t post, items = pre ++ (ws, t) :: post → isWsList ws ∧ Lexable t) ∧
+def SpellOK (sq : Token → Bool) (items : List (Bytes × Token)) : Prop :=
+  (∀ pre ws t post, items = pre ++ (ws, t) :: post → isWsList ws ∧ LexableQ sq t) ∧
   (∀ pre ws1 t1 ws2 t2 post, items = pre ++ (ws1, t1) :: (ws2, t2) :: post →
-    ws2 ≠ [] ∨ FollowOK t1 (nextCh (tokText t2)))
+    ws2 ≠ [] ∨ FollowOK t1 (nextCh (tokTextQ sq t2)))
 
 /-- lexer position in front of the white space that precedes token `i` (= right behind token `i - 1`); behind the
     last token: the end of the text -/
-def posOf (items : List (Bytes × Token)) (trail : Bytes) (i : Nat) : Nat :=
-  if i ≤ items.length then (spell (items.take i)).length else (spell items ++ trail).length
+def posOf (sq : Token → Bool) (items : List (Bytes × Token)) (trail : Bytes) (i : Nat) : Nat :=
+  if i ≤ items.length then (spell sq (items.take i)).length else (spell sq items ++ trail).length
 
 /-- **the lexer on a spelled-out token sequence** serves exactly those tokens, then end-of-input for ever -/
-theorem lexes (items : List (Bytes × Token)) (trail : Bytes) (hok : SpellOK items) (htrail : isWsList trail) :
-    SimSrc (nextToken (ofList (spell items ++ trail))) (listSrc (items.map (·.2))) (posOf items trail) := by
+theorem lexes (sq : Token → Bool) (items : List (Bytes × Token)) (trail : Bytes) (hok : SpellOK sq items) (htrail : isWsList trail) :
+    SimSrc (nextToken (ofList (spell sq items ++ trail))) (listSrc (items.map (·.2))) (posOf sq items trail) := by
   intro p
   simp only [listSrc]
   rw [nextToken_eq_lexAt]
@@ -736,20 +868,20 @@ theorem lexes (items : List (Bytes × Token)) (trail : Bytes) (hok : SpellOK ite
     have htake : items.take p = pre := by rw [hsplit, ← hlen]; simp
     have htake1 : items.take (p + 1) = pre ++ [(ws, t)] := by
       rw [hsplit, ← hlen]; simp [List.take_append, List.take_of_length_le]
-    have hpos : posOf items trail p = (spell pre).length := by simp [posOf, Nat.le_of_lt hp, htake]
-    have hpos1 : posOf items trail (p + 1) = (spell pre).length + ws.length + (tokText t).length := by
+    have hpos : posOf sq items trail p = (spell sq pre).length := by simp [posOf, Nat.le_of_lt hp, htake]
+    have hpos1 : posOf sq items trail (p + 1) = (spell sq pre).length + ws.length + (tokTextQ sq t).length := by
       simp [posOf, Nat.succ_le_of_lt hp, htake1, spell_append, spell]; omega
     have htok : ((items.map (·.2)).drop p).headD eofTok = t := by
       rw [hsplit, ← hlen]; simp
-    have hdrop : (spell items ++ trail).drop (spell pre).length = ws ++ (tokText t ++ (spell post ++ trail)) := by
+    have hdrop : (spell sq items ++ trail).drop (spell sq pre).length = ws ++ (tokTextQ sq t ++ (spell sq post ++ trail)) := by
       rw [hsplit, spell_append, List.append_assoc, List.drop_left]
       simp [spell, List.append_assoc]
-    obtain ⟨c, r, hc, hcws⟩ := lexable_head t hlex
-    have hskip := skipWs_of_drop ws (tokText t ++ (spell post ++ trail)) hdrop hws
-      (Or.inr ⟨c, r ++ (spell post ++ trail), by rw [hc]; rfl, hcws⟩)
-    have hdrop2 : (spell items ++ trail).drop ((spell pre).length + ws.length) = tokText t ++ (spell post ++ trail) :=
+    obtain ⟨c, r, hc, hcws⟩ := lexable_headQ sq t hlex
+    have hskip := skipWs_of_drop ws (tokTextQ sq t ++ (spell sq post ++ trail)) hdrop hws
+      (Or.inr ⟨c, r ++ (spell sq post ++ trail), by rw [hc]; rfl, hcws⟩)
+    have hdrop2 : (spell sq items ++ trail).drop ((spell sq pre).length + ws.length) = tokTextQ sq t ++ (spell sq post ++ trail) :=
       drop_add_of ws _ hdrop
-    have hfollow : FollowOK t (nextCh (spell post ++ trail)) := by
+    have hfollow : FollowOK t (nextCh (spell sq post ++ trail)) := by
       cases post with
       | nil =>
         simp only [spell, List.nil_append]
@@ -759,7 +891,7 @@ theorem lexes (items : List (Bytes × Token)) (trail : Bytes) (hok : SpellOK ite
       | cons y ys =>
         obtain ⟨ws2, t2⟩ := y
         obtain ⟨hws2, hlex2⟩ := hok.1 (pre ++ [(ws, t)]) ws2 t2 ys (by rw [hsplit]; simp)
-        have hshape : spell ((ws2, t2) :: ys) ++ trail = ws2 ++ (tokText t2 ++ (spell ys ++ trail)) := by
+        have hshape : spell sq ((ws2, t2) :: ys) ++ trail = ws2 ++ (tokTextQ sq t2 ++ (spell sq ys ++ trail)) := by
           simp [spell, List.append_assoc]
         rw [hshape]
         cases hw2 : ws2 with
@@ -768,48 +900,48 @@ theorem lexes (items : List (Bytes × Token)) (trail : Bytes) (hok : SpellOK ite
         | nil =>
           rcases hok.2 pre ws t ws2 t2 ys hsplit with h | h
           · exact absurd hw2 h
-          · obtain ⟨c2, r2, hc2, _⟩ := lexable_head t2 hlex2
+          · obtain ⟨c2, r2, hc2, _⟩ := lexable_headQ sq t2 hlex2
             simp only [List.nil_append]
             rw [hc2] at h ⊢
             exact h
-    rw [hpos, hskip, lex_token t _ hlex hdrop2 hfollow, htok, hpos1]
+    rw [hpos, hskip, lex_tokenQ sq t _ hlex hdrop2 hfollow, htok, hpos1]
   · -- end of input
     have hge : items.length ≤ p := Nat.le_of_not_lt hp
     have htok : ((items.map (·.2)).drop p).headD eofTok = eofTok := by
       rw [List.drop_eq_nil_of_le (by simpa using hge)]; rfl
-    have hpos1 : posOf items trail (p + 1) = (spell items ++ trail).length := by
+    have hpos1 : posOf sq items trail (p + 1) = (spell sq items ++ trail).length := by
       simp only [posOf]; rw [if_neg (by omega)]
     rw [htok, hpos1]
     by_cases hpe : p = items.length
-    · have hpos : posOf items trail p = (spell items).length := by simp [posOf, hpe]
-      have hdrop : (spell items ++ trail).drop (spell items).length = trail ++ [] := by simp
+    · have hpos : posOf sq items trail p = (spell sq items).length := by simp [posOf, hpe]
+      have hdrop : (spell sq items ++ trail).drop (spell sq items).length = trail ++ [] := by simp
       have hskip := skipWs_of_drop trail [] hdrop htrail (Or.inl rfl)
-      have hend : (spell items ++ trail).drop ((spell items).length + trail.length) = [] := by
+      have hend : (spell sq items ++ trail).drop ((spell sq items).length + trail.length) = [] := by
         rw [List.drop_eq_nil_of_le (by simp)]
       rw [hpos, hskip, lexAt_eof hend]
       simp
-    · have hpos : posOf items trail p = (spell items ++ trail).length := by
+    · have hpos : posOf sq items trail p = (spell sq items ++ trail).length := by
         simp only [posOf]; rw [if_neg (by omega)]
-      have hdrop : (spell items ++ trail).drop (spell items ++ trail).length = [] ++ [] := by simp
+      have hdrop : (spell sq items ++ trail).drop (spell sq items ++ trail).length = [] ++ [] := by simp
       have hskip := skipWs_of_drop [] [] hdrop (by intro c hc; cases hc) (Or.inl rfl)
-      have hend : (spell items ++ trail).drop ((spell items ++ trail).length + ([] : Bytes).length) = [] := by
+      have hend : (spell sq items ++ trail).drop ((spell sq items ++ trail).length + ([] : Bytes).length) = [] := by
         rw [List.drop_eq_nil_of_le (by simp)]
       rw [hpos, hskip, lexAt_eof hend]
       simp
 
 /-! ## from the text of an expression to its tree -/
 
-theorem posOf_zero (items : List (Bytes × Token)) (trail : Bytes) : posOf items trail 0 = 0 := by
+theorem posOf_zero (sq : Token → Bool) (items : List (Bytes × Token)) (trail : Bytes) : posOf sq items trail 0 = 0 := by
   simp [posOf, spell]
 
 /-- the parser on a spelled-out token sequence = the parser on the tokens -/
-theorem parse_spelled (items : List (Bytes × Token)) (trail : Bytes) (hok : SpellOK items) (htrail : isWsList trail)
+theorem parse_spelled (sq : Token → Bool) (items : List (Bytes × Token)) (trail : Bytes) (hok : SpellOK sq items) (htrail : isWsList trail)
     (nok : NumOK) :
-    parse (ofList (spell items ++ trail)) nok =
-      parseSrc (listSrc (items.map (·.2))) nok (parseFuel (spell items ++ trail).length) := by
+    parse (ofList (spell sq items ++ trail)) nok =
+      parseSrc (listSrc (items.map (·.2))) nok (parseFuel (spell sq items ++ trail).length) := by
   unfold parse
   rw [size_ofList]
-  exact parseSrc_sim _ _ nok (posOf items trail) (lexes items trail hok htrail) (posOf_zero items trail) _
+  exact parseSrc_sim _ _ nok (posOf sq items trail) (lexes sq items trail hok htrail) (posOf_zero sq items trail) _
 
 theorem tokText_ne_nil (t : Token) (hl : Lexable t) : 1 ≤ (tokText t).length := by
   obtain ⟨c, r, e, _⟩ := lexable_head t hl
@@ -834,12 +966,12 @@ theorem itemsToks_length (items : List Lit) : items.length ≤ (itemsToks items)
     | nil => simp [itemsToks]
     | cons y ys => simp only [itemsToks, List.length_cons] at ih ⊢; omega
 
-theorem textLen_le_spell (items : List (Bytes × Token)) : textLen (items.map (·.2)) ≤ (spell items).length := by
+theorem textLen_le_spell (sq : Token → Bool) (items : List (Bytes × Token)) : textLen (items.map (·.2)) ≤ (spell sq items).length := by
   induction items with
   | nil => simp [textLen, spell]
   | cons x xs ih =>
     obtain ⟨ws, t⟩ := x
-    simp only [List.map_cons, textLen_cons, spell, List.length_append]
+    simp only [List.map_cons, textLen_cons, spell, List.length_append, tokTextQ_length]
     omega
 
 theorem textLen_ge (toks : List Token) (h : ∀ t ∈ toks, Lexable t) : toks.length ≤ textLen toks := by
@@ -935,19 +1067,19 @@ theorem Expr.need_le_text (e : Expr) (prec : Nat) (hl : ∀ t ∈ e.toks prec, L
 /-- **text → tree**: any spelling of the canonical token sequence of an expression — arbitrary white space
     (spaces, tabs, newlines) between the tokens, before the first and behind the last — parses to the
     documented tree `e.ast`; lexer, lazy token pulling, parser and the final end-of-input check included -/
-theorem parse_text (nok : NumOK) (e : Expr) (he : e.OK nok) (items : List (Bytes × Token)) (trail : Bytes)
-    (htoks : items.map (·.2) = e.toks 0) (hok : SpellOK items) (htrail : isWsList trail) :
-    parse (ofList (spell items ++ trail)) nok = .ok e.ast := by
-  rw [parse_spelled items trail hok htrail nok, htoks]
+theorem parse_text (sq : Token → Bool) (nok : NumOK) (e : Expr) (he : e.OK nok) (items : List (Bytes × Token)) (trail : Bytes)
+    (htoks : items.map (·.2) = e.toks 0) (hok : SpellOK sq items) (htrail : isWsList trail) :
+    parse (ofList (spell sq items ++ trail)) nok = .ok e.ast := by
+  rw [parse_spelled sq items trail hok htrail nok, htoks]
   apply parse_canonical nok e he
   have hlex : ∀ t ∈ e.toks 0, Lexable t := by
     intro t ht
     rw [← htoks] at ht
     obtain ⟨x, hx, rfl⟩ := List.mem_map.mp ht
     obtain ⟨a, b, e⟩ := List.append_of_mem hx
-    exact (hok.1 a x.1 x.2 b e).2
+    exact (hok.1 a x.1 x.2 b e).2.1
   have h1 := e.need_le_text 0 hlex
-  have h2 := textLen_le_spell items
+  have h2 := textLen_le_spell sq items
   rw [htoks] at h2
   simp only [parseFuel, List.length_append]
   omega
@@ -1197,7 +1329,7 @@ theorem sepItems_mem (l : List Token) (ws : Bytes) (t : Token) (h : (ws, t) ∈ 
     · exact ⟨Or.inl rfl, by simp⟩
     · exact ⟨Or.inr rfl, by simp [ht']⟩
 
-theorem sepItems_ok (l : List Token) (h : ∀ t ∈ l, Lexable t) : SpellOK (sepItems l) := by
+theorem sepItems_ok (sq : Token → Bool) (l : List Token) (h : ∀ t ∈ l, LexableQ sq t) : SpellOK sq (sepItems l) := by
   constructor
   · intro pre ws t post e
     have hm : (ws, t) ∈ sepItems l := by rw [e]; simp
@@ -1225,14 +1357,32 @@ theorem sepItems_ok (l : List Token) (h : ∀ t ∈ l, Lexable t) : SpellOK (sep
       rw [← e3.1]; simp
 
 /-- the canonical text of an expression: its canonical tokens separated by single spaces -/
-def Expr.text (e : Expr) : Bytes := spell (sepItems (e.toks 0))
+def Expr.textQ (sq : Token → Bool) (e : Expr) : Bytes := spell sq (sepItems (e.toks 0))
+
+/-- the canonical text with double quotes throughout -/
+def Expr.text (e : Expr) : Bytes := e.textQ (fun _ => false)
+
+/-- the single-quoted strings of an expression contain no `'` -/
+def Expr.QuotesOK (sq : Token → Bool) (e : Expr) : Prop :=
+  ∀ t ∈ e.toks 0, t.type = .string → sq t = true → ∀ c ∈ t.lit, c ≠ 39
+
+theorem Expr.toks_lexableQ (sq : Token → Bool) (e : Expr) (h : e.Lex) (hq : e.QuotesOK sq) : ∀ t ∈ e.toks 0, LexableQ sq t :=
+  fun t ht => ⟨e.toks_lexable h 0 t ht, hq t ht⟩
+
+theorem Expr.quotesOK_false (e : Expr) : e.QuotesOK (fun _ => false) := fun _ _ _ h => by cases h
+
+/-- **`BuildFilter`'s parse of the canonical text of any spellable expression is the documented tree**, whichever
+    strings are written between single quotes -/
+theorem parse_canonical_textQ (sq : Token → Bool) (nok : NumOK) (e : Expr) (he : e.OK nok) (hl : e.Lex) (hq : e.QuotesOK sq) :
+    parse (ofList (e.textQ sq)) nok = .ok e.ast := by
+  have := parse_text sq nok e he (sepItems (e.toks 0)) [] (sepItems_toks _) (sepItems_ok sq _ (e.toks_lexableQ sq hl hq))
+    (by intro c hc; cases hc)
+  simpa [Expr.textQ] using this
 
 /-- **`BuildFilter`'s parse of the canonical text of any spellable expression is the documented tree** -/
 theorem parse_canonical_text (nok : NumOK) (e : Expr) (he : e.OK nok) (hl : e.Lex) :
-    parse (ofList e.text) nok = .ok e.ast := by
-  have := parse_text nok e he (sepItems (e.toks 0)) [] (sepItems_toks _) (sepItems_ok _ (e.toks_lexable hl 0))
-    (by intro c hc; cases hc)
-  simpa [Expr.text] using this
+    parse (ofList e.text) nok = .ok e.ast :=
+  parse_canonical_textQ _ nok e he hl e.quotesOK_false
 
 /-! ## the tight spelling: a space only where two tokens would otherwise run together -/
 
@@ -1256,26 +1406,26 @@ theorem followb_sound (t : Token) (c : UInt8) (h : followb t c = true) : FollowO
     exact ⟨h1, h2, h3, h4, h5, h6⟩
   all_goals first | trivial | simpa using h
 
-def tightFrom (prev : Token) : List Token → List (Bytes × Token)
+def tightFrom (sq : Token → Bool) (prev : Token) : List Token → List (Bytes × Token)
   | [] => []
-  | t :: r => ((if followb prev (nextCh (tokText t)) then [] else [32]), t) :: tightFrom t r
+  | t :: r => ((if followb prev (nextCh (tokTextQ sq t)) then [] else [32]), t) :: tightFrom sq t r
 
 /-- tokens written next to each other wherever the lexer still separates them, one space elsewhere -/
-def tightItems : List Token → List (Bytes × Token)
+def tightItems (sq : Token → Bool) : List Token → List (Bytes × Token)
   | [] => []
-  | t :: r => ([], t) :: tightFrom t r
+  | t :: r => ([], t) :: tightFrom sq t r
 
-theorem tightFrom_toks (prev : Token) (l : List Token) : (tightFrom prev l).map (·.2) = l := by
+theorem tightFrom_toks (sq : Token → Bool) (prev : Token) (l : List Token) : (tightFrom sq prev l).map (·.2) = l := by
   induction l generalizing prev with
   | nil => rfl
   | cons t r ih => simp [tightFrom, ih]
 
-theorem tightItems_toks (l : List Token) : (tightItems l).map (·.2) = l := by
+theorem tightItems_toks (sq : Token → Bool) (l : List Token) : (tightItems sq l).map (·.2) = l := by
   cases l with
   | nil => rfl
   | cons t r => simp [tightItems, tightFrom_toks]
 
-theorem tightFrom_ws (prev : Token) (l : List Token) : ∀ x ∈ tightFrom prev l, (x.1 = [] ∨ x.1 = [32]) ∧ x.2 ∈ l := by
+theorem tightFrom_ws (sq : Token → Bool) (prev : Token) (l : List Token) : ∀ x ∈ tightFrom sq prev l, (x.1 = [] ∨ x.1 = [32]) ∧ x.2 ∈ l := by
   induction l generalizing prev with
   | nil => intro x hx; simp [tightFrom] at hx
   | cons t r ih =>
@@ -1291,9 +1441,9 @@ theorem tightFrom_ws (prev : Token) (l : List Token) : ∀ x ∈ tightFrom prev 
       exact ⟨h1, by simp [h2]⟩
 
 /-- adjacency in `tightFrom`: every item's white space is empty only if its token may follow the previous one -/
-theorem tightFrom_adj (prev : Token) (l : List Token) :
-    ∀ pre ws1 t1 ws2 t2 post, (([] : Bytes), prev) :: tightFrom prev l = pre ++ (ws1, t1) :: (ws2, t2) :: post →
-      ws2 ≠ [] ∨ FollowOK t1 (nextCh (tokText t2)) := by
+theorem tightFrom_adj (sq : Token → Bool) (prev : Token) (l : List Token) :
+    ∀ pre ws1 t1 ws2 t2 post, (([] : Bytes), prev) :: tightFrom sq prev l = pre ++ (ws1, t1) :: (ws2, t2) :: post →
+      ws2 ≠ [] ∨ FollowOK t1 (nextCh (tokTextQ sq t2)) := by
   induction l generalizing prev with
   | nil =>
     intro pre ws1 t1 ws2 t2 post e
@@ -1306,14 +1456,13 @@ theorem tightFrom_adj (prev : Token) (l : List Token) :
     | nil =>
       simp only [tightFrom, List.nil_append, List.cons.injEq, Prod.mk.injEq] at e
       obtain ⟨⟨_, rfl⟩, ⟨hws, rfl⟩, _⟩ := e
-      by_cases hf : followb prev (nextCh (tokText t)) = true
+      by_cases hf : followb prev (nextCh (tokTextQ sq t)) = true
       · exact Or.inr (followb_sound _ _ hf)
       · left; rw [← hws]; simp [hf]
     | cons p0 ps =>
       simp only [tightFrom, List.cons_append, List.cons.injEq] at e
       obtain ⟨_, e2⟩ := e
-      -- the tail `(ws, t) :: tightFrom t r` has the same shape with `prev := t`, up to the first component
-      have key : (([] : Bytes), t) :: tightFrom t r = (([] : Bytes), t) :: tightFrom t r := rfl
+      -- the tail `(ws, t) :: tightFrom sq t r` has the same shape with `prev := t`, up to the first component
       cases ps with
       | nil =>
         simp only [List.nil_append, List.cons.injEq, Prod.mk.injEq] at e2
@@ -1324,31 +1473,37 @@ theorem tightFrom_adj (prev : Token) (l : List Token) :
         obtain ⟨_, e3⟩ := e2
         exact ih t (([], t) :: ps') ws1 t1 ws2 t2 post (by simp [e3])
 
-theorem tightItems_ok (l : List Token) (h : ∀ t ∈ l, Lexable t) : SpellOK (tightItems l) := by
+theorem tightItems_ok (sq : Token → Bool) (l : List Token) (h : ∀ t ∈ l, LexableQ sq t) : SpellOK sq (tightItems sq l) := by
   cases l with
   | nil => exact ⟨by intro pre ws t post e; simp [tightItems] at e, by intro pre ws1 t1 ws2 t2 post e; simp [tightItems] at e⟩
   | cons t0 r =>
     constructor
     · intro pre ws t post e
-      have hm : (ws, t) ∈ tightItems (t0 :: r) := by rw [e]; simp
+      have hm : (ws, t) ∈ tightItems sq (t0 :: r) := by rw [e]; simp
       simp only [tightItems, List.mem_cons, Prod.mk.injEq] at hm
       rcases hm with ⟨rfl, rfl⟩ | hm
       · exact ⟨(by intro c hc; cases hc), h _ (by simp)⟩
-      · obtain ⟨h1, h2⟩ := tightFrom_ws t0 r (ws, t) hm
+      · obtain ⟨h1, h2⟩ := tightFrom_ws sq t0 r (ws, t) hm
         refine ⟨?_, h t (by simp [h2])⟩
         rcases h1 with h1 | h1 <;> simp only at h1 <;> subst h1
         · intro c hc; cases hc
         · intro c hc; simp at hc; subst hc; decide
     · intro pre ws1 t1 ws2 t2 post e
-      exact tightFrom_adj t0 r pre ws1 t1 ws2 t2 post e
+      exact tightFrom_adj sq t0 r pre ws1 t1 ws2 t2 post e
 
 /-- the tight text of an expression -/
-def Expr.tightText (e : Expr) : Bytes := spell (tightItems (e.toks 0))
+def Expr.tightTextQ (sq : Token → Bool) (e : Expr) : Bytes := spell sq (tightItems sq (e.toks 0))
+
+def Expr.tightText (e : Expr) : Bytes := e.tightTextQ (fun _ => false)
+
+theorem parse_tight_textQ (sq : Token → Bool) (nok : NumOK) (e : Expr) (he : e.OK nok) (hl : e.Lex) (hq : e.QuotesOK sq) :
+    parse (ofList (e.tightTextQ sq)) nok = .ok e.ast := by
+  have := parse_text sq nok e he (tightItems sq (e.toks 0)) [] (tightItems_toks sq _) (tightItems_ok sq _ (e.toks_lexableQ sq hl hq))
+    (by intro c hc; cases hc)
+  simpa [Expr.tightTextQ] using this
 
 theorem parse_tight_text (nok : NumOK) (e : Expr) (he : e.OK nok) (hl : e.Lex) :
-    parse (ofList e.tightText) nok = .ok e.ast := by
-  have := parse_text nok e he (tightItems (e.toks 0)) [] (tightItems_toks _) (tightItems_ok _ (e.toks_lexable hl 0))
-    (by intro c hc; cases hc)
-  simpa [Expr.tightText] using this
+    parse (ofList e.tightText) nok = .ok e.ast :=
+  parse_tight_textQ _ nok e he hl e.quotesOK_false
 
 end Syzgy.Query
